@@ -34,7 +34,7 @@ mut=$(go test -vet=off -count=1 ./$dir 2>&1 | tail -3)
 if echo "$mut" | grep -q "^ok"; then c2=PASS; else c2=fail; fi
 rm -f $dir/zz_demo_test.go
 echo "$D: demo clean=$c1 mutant=$c2 repo-tests=$t1 | $files"
-cd /verif
+cd ${VERIF_DIR:-/verif}
 for c in "$@"; do
   out=$(VERIF_REPO=$W timeout 1500 ./vcheck $c 2>&1); rc=$?
   echo "   $c rc=$rc $(echo "$out" | grep -c '^VIOLATION') viol | $(echo "$out" | grep -A1 '^VIOLATION\|INFRA' | grep -v '^VIOLATION' | head -1 | cut -c1-160)"
